@@ -175,17 +175,29 @@ def parseData (ws : List String) : Option Written := do
     if r.isEmpty then some ps else none
   | [] => none
 
-def target? : List String → Option Target
+/-- 99 = the IRI of the default graph where it has one (Dataset, ConjunctiveGraph(identifier=…)) -/
+def defaultIri (c : Cfg) : Option Nat :=
+  if c.api = .ds || c.api = .dsu || c.api = .cgi then some 99 else none
+
+/-- a graph reference of CLEAR / DROP / ADD / MOVE / COPY as written: 0 = DEFAULT, else an IRI -/
+def graphRef? (n : Nat) : Option GraphRef :=
+  if n = 0 then some .dflt else if 90 ≤ n && n < 100 then some (.iri n) else none
+
+def target? (c : Cfg) : List String → Option Target
   | ["DEFAULT"] => some .dflt
   | ["NAMED"] => some .named
   | ["ALL"] => some .all
-  | ["GRAPH", g] => (g.toNat?.bind gName?).bind (fun x => x.map Target.graph)
+  | ["GRAPH", g] =>
+    (g.toNat?.bind graphRef?).map (fun r =>
+      match r.resolve (defaultIri c) with
+      | none => Target.dflt
+      | some n => Target.graph n)
   | _ => none
 
 def bool? (w : String) : Option Bool :=
   if w = "0" then some false else if w = "1" then some true else none
 
-def parseOp : List String → Option WOp
+def parseOp (c : Cfg) : List String → Option WOp
   | "insertdata" :: ws => (parseData ws).map WOp.insertData
   | "deletedata" :: ws => (parseData ws).map WOp.deleteData
   | "deletewhere" :: ws => do
@@ -198,12 +210,12 @@ def parseOp : List String → Option WOp
   | "modify" :: ws => do
     let ns ← nats? ws
     (parseModify ns).map WOp.modify
-  | "clear" :: s :: t => do pure (WOp.other (Op.clear (← bool? s) (← target? t)))
-  | "drop" :: s :: t => do pure (WOp.other (Op.drop (← bool? s) (← target? t)))
+  | "clear" :: s :: t => do pure (WOp.other (Op.clear (← bool? s) (← target? c t)))
+  | "drop" :: s :: t => do pure (WOp.other (Op.drop (← bool? s) (← target? c t)))
   | [k, s, a, b] => do
     let s ← bool? s
-    let a ← a.toNat?.bind gName?
-    let b ← b.toNat?.bind gName?
+    let a ← (a.toNat?.bind graphRef?).map (GraphRef.resolve (defaultIri c))
+    let b ← (b.toNat?.bind graphRef?).map (GraphRef.resolve (defaultIri c))
     if k = "add" then pure (WOp.other (Op.add s a b))
     else if k = "move" then pure (WOp.other (Op.move s a b))
     else if k = "copy" then pure (WOp.other (Op.copy s a b))
@@ -285,7 +297,7 @@ def step (d : DSt) : List String → DSt × String
   | ["known"] => (d, ",".intercalate ((sortBy (fun a b => decide (a < b)) d.run.st.known).map toString))
   | ws =>
     -- an operation: its IRIs are resolved against the prologue in force, then `PRun.step` runs it
-    let mk : Prologue → Option WOp := fun pro => (ws.mapM (resolveTok d.tab pro)).bind parseOp
+    let mk : Prologue → Option WOp := fun pro => (ws.mapM (resolveTok d.tab pro)).bind (parseOp d.cfg)
     match mk d.pro with
     | none => (d, "bad-op")
     | some _ =>
